@@ -14,7 +14,7 @@ import random
 from lib import common
 from lib.proto import Relay, Conn
 
-THEOREMS_TIED = ["C14_canDo_spec", "C14_canDo_disabled", "C14_roles_roundtrip"]
+THEOREMS_TIED = ["C14_canDo_spec", "C14_canDo_disabled", "C14_canDo_closed", "C14_canDo_no_roles", "C14_roles_roundtrip"]
 
 URL = "ws://localhost:6969"
 
@@ -32,21 +32,23 @@ def can_do_matrix(report, drv):
 
     loop = asyncio.get_event_loop()
     for enabled in (True, False):
-        for action_roles in ("a", "r", "w", "rw", "s", "arws", None):
+        # "" and [] = an action explicitly configured with no role at all (a closed / read-only relay): nobody may
+        for action_roles in ("a", "r", "w", "rw", "s", "arws", "", [], None):
             actions = {} if action_roles is None else {"zap": action_roles}
+            model_roles = "".join(action_roles) if action_roles is not None else None
             a = auth.Authenticator(_S(), {"enabled": enabled, "actions": actions})
             for tr in ("", "a", "r", "w", "rw", "s", None):
                 token = None if tr is None else ({} if tr == "" else {"pubkey": "aa" * 32, "roles": set(tr)})
                 got = loop.run_until_complete(a.can_do(token, "zap"))
                 eff = "a" if (tr is None or tr == "") else tr
-                mv = drv.call({"op": "adm.canDo", "enabled": enabled, "action_roles": action_roles, "token_roles": eff})
+                mv = drv.call({"op": "adm.canDo", "enabled": enabled, "action_roles": model_roles, "token_roles": eff})
                 if bool(got) != mv:
                     report.correspondence_break("auth.Authenticator.can_do", {"enabled": enabled, "action": action_roles, "token": tr}, got, mv)
                 want = True if (not enabled or action_roles is None) else bool(set(action_roles) & set(eff))
                 if bool(got) != want:
                     report.property_failure("can_do(%r roles, action needs %r, enabled=%r) = %r" % (eff, action_roles, enabled, got),
                                             {"case": "can_do"}, None)
-                report.case(("can_do", enabled, action_roles, tr), nontrivial=enabled, sample={"action": action_roles, "token": tr, "allowed": got})
+                report.case(("can_do", enabled, repr(action_roles), tr), nontrivial=enabled, sample={"action": action_roles, "token": tr, "allowed": got})
 
 
 def path_case(report, backend, save_roles, query_roles, ident_roles, keys, kind=1):
@@ -80,7 +82,9 @@ def path_case(report, backend, save_roles, query_roles, ident_roles, keys, kind=
         if len(oks) != 1:
             report.property_failure("%s: %d OK frames for one EVENT" % (backend, len(oks)), payload, None)
         elif allowed:
-            if not (oks[0][2] and (stored or (ephemeral and pushed))):
+            # with 'query' closed to everybody not even the observer holds a subscription: a broadcast has no witness
+            witness = bool(set("arws") & set(query_roles))
+            if not (oks[0][2] and (stored or (ephemeral and (pushed or not witness)))):
                 report.property_failure("%s: an authorised EVENT (kind %d) was refused or not stored / broadcast: %r" % (backend, kind, oks[0]), payload, None)
         else:
             if oks[0][2] or stored or pushed:
@@ -102,7 +106,9 @@ def path_case(report, backend, save_roles, query_roles, ident_roles, keys, kind=
         got_events = [f for f in fr if isinstance(f, list) and f[0] == "EVENT"]
         notices = [f for f in fr if isinstance(f, list) and f[0] == "NOTICE"]
         if q_allowed:
-            if not got_events or not any(isinstance(f, list) and f[0] == "EOSE" for f in fr):
+            # (with 'save' closed to everybody nothing is stored: the answer is then a bare EOSE)
+            have_stored = seed["id"] in relay.store.ids()
+            if (have_stored and not got_events) or not any(isinstance(f, list) and f[0] == "EOSE" for f in fr):
                 report.property_failure("%s: an authorised REQ was not served: %r" % (backend, fr[:3]), payload, None)
         else:
             if got_events or mine_open:
@@ -204,13 +210,15 @@ def run(report, tier, seed):
     try:
         can_do_matrix(report, drv)
         combos = [("w", "a"), ("w", "r"), ("ws", "rw"), ("a", "a")]
+        # an action configured with the empty role set admits nobody, whoever asks
+        closed = [("", "a"), ("w", ""), ("", "")]
         idents = [None, "r", "w", "rw", "s"]
         if tier == "quick":
             cases = [(s, q, i) for (s, q) in combos[:3] for i in idents]
             rng.shuffle(cases)
-            cases = cases[:8]
+            cases = cases[:8] + [(s, q, i) for (s, q) in closed[:2] for i in rng.sample(idents, 2)]
         else:
-            cases = [(s, q, i) for (s, q) in combos for i in idents]
+            cases = [(s, q, i) for (s, q) in combos + closed for i in idents]
         for backend in ("sql", "kv"):
             for n, (s, q, i) in enumerate(cases):
                 path_case(report, backend, s, q, i, keys)
